@@ -94,6 +94,13 @@ def cases(ctx):
                     f = rng.choice([1.2, 1.3, 1.4, -1.3])
                     pts = [list(p) for p in img]; pts[k][axis] += f * tol
                     extra.append((d1, 'M' + ' L'.join(f'{x!r},{y!r}' for x, y in pts) + ' Z', tol, 'near_miss_fine'))
+    # far from the origin: the linear part's rounding error is multiplied by the size of the first moveto, so a transform
+    # rounded without re-verification misses the target although every coefficient looks right
+    FAR = ['M300000,700000 L300120,700010 L300090,700130 L299980,700080 Z', 'M-2000000,1000000 L-1999800,1000040 L-1999850,1000090 Z']
+    for d in FAR:
+        for A in (I.rotate(math.radians(30)), I.scale(1 / 3), I.rotate(math.radians(75)).scale(1 / 7), I.translate(5, 5).rotate(math.radians(200)).scale(1.1)):
+            for tol in (0.01, 0.1):
+                extra.append((d, transformed_d(d, A), tol, 'far_exact'))
     # the same numbers once as absolute and once as relative commands: different outlines
     for d in ['M0,0 L10,0 L10,10 L0,10 Z', 'M2,1 L8,3 L5,9 Z', 'M1,1 C2,3 4,3 5,1 L3,-2 Z']:
         cm = pathsem.parse_simple(d)
@@ -186,10 +193,10 @@ def _dist_to(pt, lines):
             best = min(best, math.hypot(pt[0] - x1 - t * dx, pt[1] - y1 - t * dy))
     return best
 
-def judge_arcs(d1, d2, tol):
+def judge_arcs(d1, d2, tol, impl=None):
     """when a transform is reported for shapes with arcs: every sampled point of A(outline of s1) lies on the outline of s2 and
     vice versa (up to the chord error of the sampling and the accumulated tolerance)"""
-    impl = impl_between(d1, d2, tol)
+    if impl is None: impl = impl_between(d1, d2, tol)
     if impl[0] != 'ok' or impl[1] is None: return None
     M = Affine2D(*impl[1])
     a, b = _polyline(d1, M), _polyline(d2)
@@ -199,6 +206,35 @@ def judge_arcs(d1, d2, tol):
     if worst > slack:
         return (ARC_LAW, {'max_distance_allowed': slack}, {'A': impl[1], 'distance': worst})
     return None
+
+# basic shape OBJECTS handed to the search (not their paths): the outline the standard gives them is what must be mapped
+SHAPE_PAIRS = [
+    ('rect', dict(x=0.0, y=0.0, width=10.0, height=6.0), dict(x=3.0, y=-2.0, width=10.0, height=6.0), 'translate'),
+    ('rect', dict(x=0.0, y=0.0, width=10.0, height=6.0, rx=2.0, ry=2.0), dict(x=3.0, y=-2.0, width=10.0, height=6.0, rx=2.0, ry=2.0), 'translate'),
+    ('rect', dict(x=0.0, y=0.0, width=10.0, height=6.0), dict(x=0.0, y=0.0, width=10.0, height=6.0, rx=2.5, ry=2.5), 'different'),
+    ('rect', dict(x=1.0, y=1.0, width=10.0, height=6.0, rx=1.0, ry=1.0), dict(x=5.0, y=5.0, width=10.0, height=6.0, rx=3.0, ry=3.0), 'different'),
+    ('rect', dict(x=0.0, y=0.0, width=10.0, height=6.0), dict(x=0.0, y=0.0, width=10.0, height=7.0), 'other'),
+    ('circle', dict(cx=0.0, cy=0.0, r=4.0), dict(cx=5.0, cy=1.0, r=4.0), 'translate'),
+    ('circle', dict(cx=0.0, cy=0.0, r=4.0), dict(cx=5.0, cy=1.0, r=2.0), 'other'),
+    ('ellipse', dict(cx=0.0, cy=0.0, rx=4.0, ry=2.0), dict(cx=-3.0, cy=2.0, rx=4.0, ry=2.0), 'translate'),
+    ('ellipse', dict(cx=0.0, cy=0.0, rx=4.0, ry=2.0), dict(cx=0.0, cy=0.0, rx=2.0, ry=4.0), 'other'),
+    ('ellipse', dict(cx=0.0, cy=0.0, rx=4.0, ry=2.0), dict(cx=0.0, cy=0.0, rx=4.0, ry=3.0), 'other'),
+]
+
+def judge_shape_pair(kind, a1, a2, tol, rel):
+    from props.c09 import spec_outline, CLASSES
+    try:
+        r = affine_between(CLASSES[kind](**a1), CLASSES[kind](**a2), tol)
+        impl = ['ok', None if r is None else [float(v) for v in r]]
+    except (ValueError, ZeroDivisionError, StopIteration, RuntimeError) as ex:
+        return None
+    d1, d2 = pathsem.fmt(spec_outline(kind, a1)), pathsem.fmt(spec_outline(kind, a2))
+    if impl[1] is None:
+        return ('an exact translation of a shape is always found', 'a translation', None) if rel == 'translate' else None
+    if rel == 'different':
+        # corner radii differ by far more than the tolerance: no affine map relates a square and a rounded corner of this size
+        return ('no transform is reported for shapes whose outlines differ beyond the tolerance', None, {'A': impl[1]})
+    return judge_arcs(d1, d2, tol, impl=impl)
 
 ARC_PAIRS = [
     # (s1, s2, tol): controls - a translated, a uniformly scaled and a 180-degree rotated copy of a shape with a circular arc
@@ -213,6 +249,13 @@ ARC_PAIRS = [
 def search(ctx, broken, disagreements):
     found, n = [], 0
     seen = set()
+    for kind, a1, a2, rel in SHAPE_PAIRS:
+        for tol in (0.01, 0.1):
+            n += 1
+            v = judge_shape_pair(kind, a1, a2, tol, rel)
+            if v and v[0] not in seen:
+                seen.add(v[0])
+                found.append({'law': v[0], 'input': {'shape': kind, 'a1': a1, 'a2': a2, 'tol': tol, 'rel': rel, 'kind': 'shapes'}, 'expected_by_spec': jsonable(v[1]), 'observed': jsonable(v[2])})
     for d1, d2, tol in ARC_PAIRS:
         n += 1
         v = judge_arcs(d1, d2, tol)
@@ -244,6 +287,9 @@ def matches_known(v, entry):
     return False
 
 def replay(ctx, w):
+    if w.get('kind') == 'shapes':
+        v = judge_shape_pair(w['shape'], w['a1'], w['a2'], w['tol'], w['rel'])
+        return {'fails': v is not None, 'detail': jsonable(v)}
     if w.get('kind') == 'arcs':
         v = judge_arcs(w['s1'], w['s2'], w['tol'])
         return {'fails': v is not None, 'detail': jsonable(v), 'impl': impl_between(w['s1'], w['s2'], w['tol'])}
